@@ -187,8 +187,12 @@ pub fn check_type(ty: usize) -> Verdict {
     let t = c.ty(ty);
     let m = &c.models[ty];
     let name = m.row.path;
-    let it = (t.iter_units)();
-    let it2 = (t.unit_iter)();
+    // units declared in /repo but absent from the reference table (added
+    // after it was written) are outside the check; every table unit must
+    // still appear, once, in the required order
+    let known = |v: Vec<usize>| v.into_iter().filter(|&i| i != NOT_A_CONST).collect::<Vec<_>>();
+    let it = known((t.iter_units)());
+    let it2 = known((t.unit_iter)());
     if it != m.order || it2 != m.order {
         let show = |v: &Vec<usize>| {
             v.iter()
